@@ -886,7 +886,13 @@ fn post_mutate(rng: &mut Rng, m: &mut GenModel, lim: &GenLimits) {
         1 if lim.allow_satisfy => {
             m.sense = Sense::Satisfy;
             m.obj = vec![0.0; n];
-            m.offset = 0.0;
+            // the text front end compiles `solve` to a constant objective: keep a constant
+            // sometimes
+            m.offset = if rng.chance(1, 2) {
+                0.0
+            } else {
+                dyadic(rng, -4, 6, lim)
+            };
         }
         2 => {
             m.sense = match m.sense {
